@@ -5,7 +5,7 @@ from . import unit as U, verus as V
 from .rules import Unsupported
 
 ROOT = os.path.dirname(os.path.dirname(os.path.abspath(__file__)))
-BUILD = os.path.join(ROOT, 'build')
+BUILD = os.environ.get('VERIF_BUILD', os.path.join(ROOT, 'build'))   # (VERIF_BUILD: private build dir for parallel development runs)
 EVID = os.path.join(ROOT, 'evidence')
 REPLAY = os.path.join(ROOT, 'build', 'replay')
 
